@@ -140,6 +140,21 @@ CLAIMED = {
                             "evaluation of the property on the same histories.  Table layout is parsed, not modelled."),
         technique="Lean 4 proof (fold induction) over hand model + trace validation against real sweeps",
         design="5/C15"),
+    "C17": dict(
+        text=("Lean theorems over any field of characteristic 0 about the traced scalar converters of dassh.utils: every "
+              "supported conversion composed with its inverse is the identity; ft = 12 in, in = 2.54 cm, cm = 10 mm; "
+              "temperature differences convert consistently with absolute temperatures (F degree = 5/9 K); flow-rate "
+              "conversion composes the mass factor with the inverse time factor.  Lean decides (on lists extracted by "
+              "running the real convert_* functions on a maximal parsed input with tagged factors) that every key of a "
+              "hand-written classification of dimensional inputs is converted exactly once and nothing else is.  One "
+              "maximal problem written in random (all 90 in the thorough tier) unit combinations must give identical "
+              "internal data, mesh and outlet temperatures."),
+        note=COMMON_NOTE + ("T1 trace of the converters, dynamic-taint extraction of converted keys (T2), metamorphic "
+                            "oracle.  The classification of dimensional keys is the specification and is hand-written; "
+                            "keys of sections not present in the maximal input (Orificing, AssemblyTables, PinModel) are "
+                            "not covered."),
+        technique="Lean 4 proof over traced converters + kernel-decided key cover + metamorphic unit oracle",
+        design="5/C17"),
 }
 
 REASONS_PENDING = "check not built yet in this session (work in progress, see DESIGN.md section 12)"
